@@ -15,14 +15,15 @@ CLAIMED = {
              "list in scope; every list is replayed into the real generate_script_block (a sample through the rendered "
              "ATestRun_eljob.py) and each observed (blocks, outcome, script) is validated by TLC against the same spec.",
         design_ref="DESIGN.md section 5, C15; section 2.7",
-        note="Exhaustive only within the constants of spec/MCMetaBlocks_<tier>.cfg (3 names + 1 unsent, 2-3 scripts, lists <= 3); "
+        note="Exhaustive only within the constants of spec/MCMetaBlocks_<tier>.cfg (3 names + 1 unsent, 2-3 scripts, lists <= 3) and of the Dup4 family (every list of "
+             "exactly four blocks over three names with name-specific scripts and up to two dependencies each: 20 736 quick / 194 481 thorough); "
              "trusts TLC and the JSON plumbing in harness/c15.py.",
         technique="TLA+ spec MetaBlocks/MetaBlocksReq + TLC exhaustive enumeration, spec->code replay and TLC trace validation (MetaTrace)",
     ),
 }
 
 _P_NOTE = ("Bounded: queries up to the profile's MaxSize (exhaustive when under the cap, otherwise the smallest terms plus a seeded sample), "
-           "events sampled by tlc -simulate from EventGen; trusts TLC's evaluation of Denote/Schema, g++/libstdc++ as the meaning of the emitted C++, "
+           "events: a seeded tlc -simulate sample of EventGen plus one event per size plan (every bank empty / one / two objects / mixed / one bank missing); trusts TLC's evaluation of Denote/Schema, g++/libstdc++ as the meaning of the emitted C++, "
            "and the model experiment framework in harness/model (generated from spec/Universe.tla).")
 _P_TECH = "TLA+ spec (Query/QueryGen/JobTrace) + TLC: query enumeration, replay into the real translator and compiled emitted code, TLC trace validation"
 
@@ -48,17 +49,17 @@ CLAIMED.update({
     "C05": _p("Every case is run over event histories (singletons in fresh job instances, permutations, reversed and shuffled sequences in one instance); TLC's trace spec has no "
               "inter-event state and its reference-free clause StateCarried requires each event's rows in any history to equal its rows alone.", "DESIGN.md section 5 C05"),
     "C13": _p("TLC enumerates the operator x operand-kind table exhaustively (plus a sampled wider arithmetic profile and a profile of conditionals as columns and inside "
-              "Aggregate bodies); values and column kinds computed by the compiled job are "
+              "Aggregate bodies, and every small integer-valued expression divided by / dividing an integer constant); values and column kinds computed by the compiled job are "
               "validated by TLC against exact-rational Python numerics (Values.tla).", "DESIGN.md section 5 C13"),
 })
 
 CLAIMED["C07"] = dict(
     category="model_checking",
     text="TLC checks the lifecycle machine (required: pristine at every apply; the as-implemented instantiation yields the shortest leaking histories) and enumerates "
-         "every history of operations up to the bound; each is replayed with real executors in a process forked from a pristine parent, then five probe queries are "
-         "translated and TLC requires each probe's normalised package to equal its fresh-process package.",
+         "every history of operations up to two (three-operation histories by simulation in the thorough tier); each is replayed with real executors in a process forked "
+         "from a pristine parent, then fifteen probe queries are translated and TLC requires each probe's normalised package to equal its fresh-process package.",
     design_ref="DESIGN.md section 5 C07, section 2.6",
-    note="Histories up to length 2 (quick, exhaustive: 2 071) / 3 (thorough, sampled beyond the cap) over 72 operations (6 metadata kinds incl. a declaration on a class with built-in default types x 4 outcomes x 3 executors); nine probes sensitive to method types, default types, enums, template directories, a second translation of the same object, "
+    note="128 operations (8 metadata kinds: method type, a method of a class with built-in defaults, enum, inject / job-script blocks, extended metadata, a collection replacing a built-in plus a new one, a C++ function, none x 4 outcomes x 4 executors: same, another, CMS AOD, CMS miniAOD); quick: every history of <= 1 operation and a seeded sample of 2 600 of the 16 513 of length <= 2; thorough: all of those plus simulated histories of 3; fifteen probes (incl. one transformed tree written twice, backend-default method types on both CMS backends, an undeclared collection / function) sensitive to method types, default types, enums, template directories, a second translation of the same object, "
          "blocks, extended metadata, other backend; comparison after renaming generated identifiers.",
     technique="TLA+ spec Lifecycle + TLC history enumeration, replay in forked real processes, TLC trace validation (LifecycleTrace, memo form)",
 )
@@ -78,8 +79,9 @@ CLAIMED["C08"] = dict(
 CLAIMED["C09"] = dict(
     category="model_checking",
     text="TLC enumerates base queries and grafts every unsupported construct of the property's list (unknown operators, comparison chains, unimplemented Aggregate "
-         "forms, slices, arithmetic on sequences, raw objects, values used as sequences, getAttribute, malformed / unknown / foreign metadata, First(predicate), surplus "
-         "arguments) at every live position; each graft is sent to the real translator and TLC (JobTrace, clause Refuses) requires that it raised.",
+         "forms, slices, arithmetic on sequences, raw objects, values used as sequences, getAttribute, malformed / unknown / foreign metadata incl. a key only another experiment's "
+         "declaration knows, First(predicate), surplus arguments, C++ function calls with one argument too many / too few or in the other call style, collection calls with "
+         "the wrong number or type of arguments) at every live position; each graft is sent to the real translator and TLC (JobTrace, clause Refuses) requires that it raised.",
     design_ref="DESIGN.md section 5 C09",
     note="Grafts are placed only where the grafted value is used by the rest of the query (dead positions are MAY); any exception counts as a refusal; wrong label counts "
          "for AsROOTTTree are covered under C03.",
@@ -101,8 +103,8 @@ CLAIMED["C16"] = dict(
     category="fault_enumeration",
     text="TLC explores the Runner machine (invocation sequences x flags, required exit class / destination contents) and exports every sequence; each is replayed with "
          "the real rendered runner.sh of the three backends, unmodified, in a private user+mount namespace with stub tools, once fault-free and once per external "
-         "command of its last invocation with that command failing; TLC (RunnerTrace) validates every observed invocation: exit codes, no success and no fresh output "
-         "after a failure in a named step, this run's output from exactly the requested inputs at the target on exit 0, -c quiet, other destinations untouched.",
+         "command of its last invocation with that command failing (the job and the conversion also failing LATE: after writing their output); TLC (RunnerTrace) validates every observed invocation: exit codes, no success and no fresh output "
+         "(no created, truncated or re-stamped file, by modification time / size / digest) after a failure in a named step, this run's output from exactly the requested inputs at the target on exit 0, -c quiet, other destinations untouched.",
     design_ref="DESIGN.md section 5 C16, section 2.8, section 3.1",
     note="Sequences up to length 2 (quick) / 3 (thorough); single failures only; external tools are stubs (harness/stubs) that log, fail on request and do the minimum the "
          "next step needs; outcomes the property leaves open (-c -r together, compiling twice in one directory, incidental command failures) are only held to "
@@ -118,7 +120,7 @@ CLAIMED["C17"] = dict(
          "interpreter with the real LocalDataset classes against a stand-in python_on_whales; TLC (LocalRunTrace) validates exception-or-result, the docker.run "
          "arguments (image, command, mounts), filelist.txt, pre-flight errors before any container, and removal of the temporary directory.",
     design_ref="DESIGN.md section 5 C17, section 2.9",
-    note="All 2880 scenarios; in the real_runner scenarios the container is the C16 namespace sandbox running the generated package's own runner.sh (machines M4 and M5 composed: the result returned to the caller must list exactly the dataset's files as the job's inputs); otherwise python_on_whales is a stand-in (harness/fake_pkgs), docker itself is not exercised; TMPDIR is redirected to observe leftovers.",
+    note="All 3600 scenarios (10 file configurations incl. a file named twice); in the real_runner scenarios the container is the C16 namespace sandbox running the generated package's own runner.sh (machines M4 and M5 composed: the result returned to the caller must list exactly the dataset's files as the job's inputs); otherwise python_on_whales is a stand-in (harness/fake_pkgs), docker itself is not exercised; TMPDIR is redirected to observe leftovers.",
     technique="TLA+ spec LocalRun/LocalRunReq + TLC scenario enumeration, replay through the real LocalDataset with a stand-in docker, TLC trace validation (LocalRunTrace)",
 )
 
@@ -138,14 +140,17 @@ CLAIMED["C14"] = dict(
 CLAIMED["C06"] = _p("TLC enumerates, per backend, queries over every collection of that backend's table (incl. a singleton and, through metadata, a newly declared collection and "
                     "a declaration replacing a built-in) x banks (two with different contents, one absent from every event) x one or two uses; the model store logs every "
                     "retrieval. TLC validates rows (wrong / swapped bank or type => different rows), loud failure on a missing bank, admissible (container type, bank) "
-                    "requests, the link libraries in the rendered CMake file, and on miniAOD the tokens (declared+initialised with exactly the used tags).",
+                    "requests, the link libraries in the rendered CMake file, and on miniAOD the tokens (declared+initialised with exactly the used tags); malformed collection "
+                    "declarations (missing / spurious element type, unknown key, a key only another experiment knows, another experiment's declaration) and collection "
+                    "calls with the wrong number or type of arguments must be refused.",
                     "DESIGN.md section 5 C06")
 
 CLAIMED["C11"] = _p("The spec carries a table of C++ functions (spec/Fns.tla) with known asymmetric meanings whose parameter names collide on purpose with method names used "
                     "in actual arguments, with each other as prefixes, and with the result name; function, method and collection-returning styles, a renamed result, an "
                     "include file that the code needs. TLC enumerates every function x actual-argument tuple (incl. nested calls); the compiled job's values are validated "
                     "by TLC against the function's meaning, so a captured, swapped or half-substituted argument, a lost include or a wrongly scoped result shows up as a "
-                    "compile error or wrong value.", "DESIGN.md section 5 C11")
+                    "compile error or wrong value; calls with one argument too many / too few or in the other call style (grafts of spec/Grafts.tla) must be refused; "
+                    "a call bound once by a lambda applied on the spot and used several times, first inside a conditional, must be computed where every use sees it.", "DESIGN.md section 5 C11")
 
 CLAIMED["C18"] = _p("TLC enumerates the literal space (integers by magnitude class up to beyond 2^64, floats in every notation Python's repr produces incl. subnormal, largest "
                     "finite and inf, booleans, strings of length 1-3 over quote, backslash, newline, percent, non-ASCII, brace, space, apostrophe) x positions (output value, "
